@@ -183,6 +183,7 @@ func init() {
 			return "err-create"
 		}
 		wire := st.Request().Marshal()
+		sent := append([]byte{}, wire...)
 		resp, _, err := e.issuer.Evaluate(wire)
 		if err != nil {
 			return "err-evaluate"
@@ -190,6 +191,17 @@ func init() {
 		tok, err := st.FinalizeToken(resp)
 		if err != nil {
 			return "err-finalize"
+		}
+		// the same request bytes delivered again (a retransmission): still an honest run
+		if !bytes.Equal(wire, sent) {
+			return "err-request-bytes-changed-by-evaluate"
+		}
+		resp2, _, err := e.issuer.Evaluate(wire)
+		if err != nil {
+			return "err-evaluate-retransmission"
+		}
+		if tok2, err := st.FinalizeToken(resp2); err != nil || !pssValid(e.issuer.TokenKey(), tok2.AuthenticatorInput(), tok2.Authenticator) {
+			return "err-finalize-retransmission"
 		}
 		m := tok.Marshal()
 		return fmt.Sprintf("ok size=%d tokpre=%s authlen=%d valid=%s", len(wire), hxv(m[:98]), len(tok.Authenticator), b2s(pssValid(e.issuer.TokenKey(), tok.AuthenticatorInput(), tok.Authenticator)))
